@@ -139,6 +139,89 @@ func (e *Engine) ConcurrentWrites(n, m int) {
 	e.checkRev()
 }
 
+// ConcurrentSubBlockWrites: n goroutines own contiguous sector ranges whose
+// boundaries fall inside 4 KiB blocks, so neighbours share blocks but never a
+// sector; each issues m writes of random sub-ranges of its own range through
+// Server.WriteAt (what the rpc server calls). Every sector must end up holding
+// the last write its owner made to it: a read-modify-write of one writer must
+// not put back a neighbour's older bytes.
+func (e *Engine) ConcurrentSubBlockWrites(n, m int) {
+	if e.Dead {
+		return
+	}
+	total := e.M.Size / Sector
+	span := int64(n) * int64(e.R.Range(3, 13)) // sectors in the window
+	if span > total {
+		span = total
+	}
+	if span < int64(n) {
+		return
+	}
+	start := int64(0)
+	if total > span {
+		start = int64(e.R.Intn(int(total - span + 1)))
+	}
+	// cut points: n-1 distinct positions inside the window
+	cuts := []int64{start}
+	for g := 1; g < n; g++ {
+		cuts = append(cuts, start+span*int64(g)/int64(n))
+	}
+	cuts = append(cuts, start+span)
+	e.rec(Op{K: "cwrite", Off: start * Sector, Len: span * Sector, Note: fmt.Sprintf("%d writers x %d", n, m)})
+	type wr struct {
+		off, l int64
+		wid    uint32
+	}
+	plan := make([][]wr, n)
+	for g := 0; g < n; g++ {
+		lo, hi := cuts[g], cuts[g+1]
+		for i := 0; i < m; i++ {
+			o := lo + int64(e.R.Intn(int(hi-lo)))
+			l := int64(e.R.Range(1, int(hi-o)))
+			plan[g] = append(plan[g], wr{o * Sector, l * Sector, e.M.NextWID})
+			e.M.NextWID++
+		}
+	}
+	var wg sync.WaitGroup
+	errs := make(chan error, n)
+	for g := 0; g < n; g++ {
+		wg.Add(1)
+		go func(g int) {
+			defer wg.Done()
+			for _, w := range plan[g] {
+				if _, err := e.Srv.WriteAt(Payload(w.off, w.l, w.wid), w.off); err != nil {
+					errs <- err
+					return
+				}
+			}
+		}(g)
+	}
+	wg.Wait()
+	for g := 0; g < n; g++ {
+		for _, w := range plan[g] {
+			e.M.Write(w.off, w.l, w.wid)
+		}
+	}
+	e.Res.Count("concurrent_subblock_runs", 1)
+	e.Res.Count("writes", int64(n*m))
+	select {
+	case err := <-errs:
+		e.Fail("C01", "write:error-concurrent", err.Error())
+		return
+	default:
+	}
+	// the blocks the window touches, read back as one range
+	lo := start * Sector / Block * Block
+	hi := ((start+span)*Sector + Block - 1) / Block * Block
+	if hi > e.M.Size {
+		hi = e.M.Size
+	}
+	e.readCheck(lo, hi-lo, "cwrite")
+	if !e.Dead {
+		e.checkRev()
+	}
+}
+
 func RunRevCase(e *Engine, p Profile) {
 	r := e.R
 	blocks := r.Range(16, 96)
